@@ -118,9 +118,18 @@ fn content(rng: &mut Rng, class: usize, cols: usize) -> String {
     s
 }
 
+/// How the content reaches the field: the message, the prefix, or a custom key (also one that shadows a
+/// built-in key: a user key takes precedence, and the field contract is the same for every key).
+pub const CARRIERS: [&str; 7] = ["msg", "prefix", "ck", "bar", "pos", "wide_bar", "eta"];
+
 pub fn check_field(width: usize, align: Option<Align>, truncate: bool, msg: &str, class: &'static str, replay: String) -> (Verdict, bool) {
+    check_field_via(0, width, align, truncate, msg, class, replay)
+}
+
+pub fn check_field_via(carrier: usize, width: usize, align: Option<Align>, truncate: bool, msg: &str, class: &'static str, replay: String) -> (Verdict, bool) {
+    let key = CARRIERS[carrier];
     let spec = format!(
-        "{{msg:{}{}{}}}",
+        "{{{key}:{}{}{}}}",
         align.map(|a| a.ch()).unwrap_or(""),
         width,
         if truncate { "!" } else { "" }
@@ -135,8 +144,20 @@ pub fn check_field(width: usize, align: Option<Align>, truncate: bool, msg: &str
         }
     };
     let m = msg.to_string();
-    let r = render_with(60000, Some(10), style, move |pb| pb.set_message(m));
-    let witness = J::obj().with("template", spec.clone()).with("message", msg).with("class", class);
+    let style = if carrier >= 2 {
+        let text = m.clone();
+        style.with_key(key, move |_: &indicatif::ProgressState, w: &mut dyn std::fmt::Write| {
+            let _ = w.write_str(&text);
+        })
+    } else {
+        style
+    };
+    let r = render_with(60000, Some(10), style, move |pb| match carrier {
+        0 => pb.set_message(m),
+        1 => pb.set_prefix(m),
+        _ => {}
+    });
+    let witness = J::obj().with("template", spec.clone()).with("content", msg).with("class", class).with("carrier", if carrier >= 2 { format!("custom key named {key}") } else { key.to_string() });
     let rendered = match r {
         Ok(r) => r.lines.first().cloned().unwrap_or_default(),
         Err(p) => {
@@ -213,7 +234,13 @@ pub fn check_field(width: usize, align: Option<Align>, truncate: bool, msg: &str
     (
         Verdict::Violated(Box::new(Violation {
             rule: rule.into(),
-            features: vec![class.to_string(), format!("align-{al}"), if fits { "fits".into() } else if truncate { "truncate".into() } else { "overflow".into() }],
+            features: {
+                let mut f = vec![class.to_string(), format!("align-{al}"), if fits { "fits".into() } else if truncate { "truncate".into() } else { "overflow".into() }];
+                if carrier > 0 {
+                    f.push(format!("via-{}{key}", if carrier >= 2 { "custom-" } else { "" }));
+                }
+                f
+            },
             detail: format!("{spec} with {msg:?} rendered {rendered:?} ({c1} columns); acceptable visible texts: {accept:?}"),
             witness,
             replay,
@@ -226,6 +253,7 @@ fn run_case(seed: u64, idx: u64, exhaustive_n: u64) -> CaseOut {
     let mut rng = Rng::derive(seed, 12, idx);
     let aligns = [None, Some(Align::Left), Some(Align::Center), Some(Align::Right)];
     let (width, align, truncate, class, cols);
+    let mut carrier = 0usize;
     if idx < exhaustive_n {
         // exhaustive slice: widths 0..=40 x 4 alignments x truncate on/off x 5 classes x 3 content sizes
         let mut i = idx;
@@ -251,6 +279,7 @@ fn run_case(seed: u64, idx: u64, exhaustive_n: u64) -> CaseOut {
         align = *rng.pick(&aligns);
         truncate = rng.chance(1, 2);
         class = rng.usize(5);
+        carrier = if rng.chance(1, 2) { 0 } else { rng.usize(CARRIERS.len()) };
         cols = match rng.below(4) {
             0 => 0,
             1 => width.min(400),
@@ -259,11 +288,12 @@ fn run_case(seed: u64, idx: u64, exhaustive_n: u64) -> CaseOut {
         };
     }
     let msg = content(&mut rng, class, cols);
-    let (verdict, measured) = check_field(width, align, truncate, &msg, CLASSES[class], format!("{seed}:{idx}"));
+    let (verdict, measured) = check_field_via(carrier, width, align, truncate, &msg, CLASSES[class], format!("{seed}:{idx}"));
     let mut co = CaseOut::held(fnv1a(format!("{width}{align:?}{truncate}{msg}").as_bytes()), measured && !msg.is_empty());
     co.verdict = verdict;
     co.count("fields_measured", measured as u64);
     co.see("content_classes", class as u64);
+    co.see("carriers", carrier as u64);
     co.see("widths", width as u64);
     if idx % 997 == 0 {
         co.sample = Some(J::obj().with("width", width).with("align", format!("{align:?}")).with("truncate", truncate).with("message", msg));
@@ -441,17 +471,71 @@ fn run_wide_rest(seed: u64, idx: u64) -> CaseOut {
     co
 }
 
+/// `{bar:W}` is a field like any other: whatever whole cells fit, the field occupies exactly W columns
+/// and the padding sits on the side the alignment asks for. (What the cells show is C13's business.)
+fn run_bar_field(seed: u64, idx: u64) -> CaseOut {
+    let mut rng = Rng::derive(seed, 1202, idx);
+    let sets: [(&str, usize); 5] = [("#>-", 1), ("█░", 1), ("古今", 2), ("＃＞－", 2), ("界▓世", 0)];
+    let (chars, cw) = sets[rng.usize(4)];
+    let width = match rng.below(3) {
+        0 => rng.usize(8),
+        1 => rng.range(8, 61) as usize,
+        _ => 2 * rng.range(0, 40) as usize + 1,
+    };
+    let align = *rng.pick(&[None, Some(Align::Left), Some(Align::Center), Some(Align::Right)]);
+    let len = rng.range(1, 1000);
+    let pos = match rng.below(4) {
+        0 => 0,
+        1 => len,
+        _ => rng.range(0, len),
+    };
+    let spec = format!("{{bar:{}{}}}", align.map(|a| a.ch()).unwrap_or(""), width);
+    let mut co = CaseOut::held(fnv1a(format!("bar{spec}{chars}{pos}/{len}").as_bytes()), true);
+    let style = ProgressStyle::with_template(&spec).unwrap().progress_chars(chars);
+    let r = render_with(60000, Some(len), style, move |pb| pb.set_position(pos));
+    let witness = J::obj().with("template", spec.clone()).with("progress_chars", chars).with("cell_columns", cw).with("pos", pos).with("len", len);
+    let feat = vec![format!("bar-field"), format!("cell-width-{cw}"), if width % cw == 0 { "width-multiple-of-cell".into() } else { "width-not-multiple-of-cell".to_string() }];
+    match r {
+        Err(p) => {
+            co.verdict = Verdict::Violated(Box::new(Violation { rule: "panic".into(), features: feat, detail: format!("{spec} with {chars:?} panicked: {p}"), witness, replay: format!("b{seed}:{idx}") }))
+        }
+        Ok(r) => {
+            let line = r.lines.first().cloned().unwrap_or_default();
+            let c = cols_of(&line);
+            let slack = width % cw;
+            let side_ok = slack == 0
+                || match align.unwrap_or(Align::Left) {
+                    Align::Left => line.ends_with(' ') || width < cw,
+                    Align::Right => line.starts_with(' ') || width < cw,
+                    Align::Center => true,
+                };
+            if c != width || !side_ok {
+                co.verdict = Verdict::Violated(Box::new(Violation {
+                    rule: if c != width { "field-width".into() } else { "field-padding-side".into() },
+                    features: feat,
+                    detail: format!("{spec} with progress characters {chars:?} ({cw} column(s) per cell) at {pos}/{len} rendered {line:?}: {c} columns instead of {width}"),
+                    witness,
+                    replay: format!("b{seed}:{idx}"),
+                }));
+            }
+        }
+    }
+    co.count("bar_fields_measured", 1);
+    co
+}
+
 pub fn run(cfg: &RunCfg) -> PropResult {
     console::set_colors_enabled(false);
     let exhaustive_n: u64 = 41 * 4 * 2 * 5 * 3;
     let report = if let Some(case) = &cfg.case {
         let wide = case.starts_with('w');
         let rest = case.starts_with('v');
-        let mut it = case.trim_start_matches(['w', 'v']).split(':');
+        let barf = case.starts_with('b');
+        let mut it = case.trim_start_matches(['w', 'v', 'b']).split(':');
         let seed: u64 = it.next().and_then(|s| s.parse().ok()).unwrap_or(cfg.seed);
         let idx: u64 = it.next().and_then(|s| s.parse().ok()).unwrap_or(0);
         let mut r = crate::report::Report::default();
-        r.add(idx, if rest { run_wide_rest(seed, idx) } else if wide { run_wide(seed, idx) } else { run_case(seed, idx, exhaustive_n) });
+        r.add(idx, if barf { run_bar_field(seed, idx) } else if rest { run_wide_rest(seed, idx) } else if wide { run_wide(seed, idx) } else { run_case(seed, idx, exhaustive_n) });
         r
     } else {
         let n = if cfg.thorough { 6_000_000 } else { 60_000 };
@@ -460,11 +544,13 @@ pub fn run(cfg: &RunCfg) -> PropResult {
         r.merge(crate::report::run_parallel_tagged('w', nw, workers(), |i| run_wide(cfg.seed, i)));
         let nv = if cfg.thorough { 60_000 } else { 1_500 };
         r.merge(crate::report::run_parallel_tagged('v', nv, workers(), |i| run_wide_rest(cfg.seed, i)));
+        let nb = if cfg.thorough { 400_000 } else { 8_000 };
+        r.merge(crate::report::run_parallel_tagged('b', nb, workers(), |i| run_bar_field(cfg.seed, i)));
         r
     };
     PropResult {
         report,
-        rule: "one rendered field per evaluation: widths 0..=40 x alignment (none,<,^,>) x truncation on/off x content class (ascii, multibyte-1col, wide-2col, ansi, combining) x (shorter, exact, longer) enumerated completely, then sampled widths up to 65535 and {wide_msg} lines on terminals 1..120 columns, and {wide_msg} next to padded neighbours whose widths add up to 0..140000 columns (around 255, 65535, 65536+w, 131072) on terminals of 4..65535 columns; non-trivial = the field was measured and the content is non-empty; distinct = hash of (width, alignment, truncation, content)".into(),
+        rule: "one rendered field per evaluation: widths 0..=40 x alignment (none,<,^,>) x truncation on/off x content class (ascii, multibyte-1col, wide-2col, ansi, combining) x (shorter, exact, longer) enumerated completely, then sampled widths up to 65535 and {wide_msg} lines on terminals 1..120 columns, content delivered through msg, prefix and custom keys (also ones shadowing bar/pos/wide_bar/eta), {bar:W} fields with 1- and 2-column progress characters (exact W columns, padding on the aligned side), and {wide_msg} next to padded neighbours whose widths add up to 0..140000 columns (around 255, 65535, 65536+w, 131072) on terminals of 4..65535 columns; non-trivial = the field was measured and the content is non-empty; distinct = hash of (width, alignment, truncation, content)".into(),
         exhaustive: false,
     }
 }
